@@ -12,6 +12,7 @@ import (
 
 	"golang.org/x/tools/go/ssa"
 
+	"verif/internal/core"
 	"verif/internal/engine/paths"
 	"verif/internal/ir"
 )
@@ -178,7 +179,7 @@ func errPassThrough(f *ssa.Function, depth int) string {
 		case *ssa.Call:
 			call = x
 		}
-		if call == nil || call.Common().IsInvoke() || call.Common().StaticCallee() == nil || call.Common().StaticCallee().Pkg != f.Pkg {
+		if call == nil || call.Common().IsInvoke() || call.Common().StaticCallee() == nil || call.Common().StaticCallee().Pkg == nil || !strings.HasPrefix(call.Common().StaticCallee().Pkg.Pkg.Path(), core.ModPath) {
 			return ""
 		}
 		name := calleeShort(call.Common())
@@ -286,6 +287,14 @@ func condAtom(v ssa.Value, truth bool) (string, bool) {
 				cst, other = c, x.Y
 			}
 			if cst != nil {
+				// (a ^ k) == 0 is a == k
+				if xo, ok := other.(*ssa.BinOp); ok && xo.Op == token.XOR && cst.Value.Kind() == constant.Int && constant.Sign(cst.Value) == 0 {
+					if k2, ok := xo.Y.(*ssa.Const); ok && k2.Value != nil {
+						other, cst = xo.X, k2
+					} else if k2, ok := xo.X.(*ssa.Const); ok && k2.Value != nil {
+						other, cst = xo.Y, k2
+					}
+				}
 				t := truth
 				if x.Op == token.NEQ {
 					t = !t
@@ -317,7 +326,7 @@ func condAtom(v ssa.Value, truth bool) (string, bool) {
 		if k, ok := oy.(*ssa.Const); ok && k.Value != nil && oop != token.ILLEGAL {
 			if what := describeOperand(ox); what != "" {
 				// a length is not negative: len < 1, len <= 0 are len == 0; len > 0, len >= 1 are len != 0
-				if strings.HasPrefix(what, "len(") {
+				if strings.HasPrefix(what, "len(") || isUnsigned(ox.Type()) {
 					kv := k.Value.ExactString()
 					switch {
 					case oop == token.LSS && kv == "1", oop == token.LEQ && kv == "0":
@@ -885,4 +894,9 @@ func decideByAssumedValue(as Assume, atom string) (val bool, known bool) {
 		}
 	}
 	return false, false
+}
+
+func isUnsigned(t types.Type) bool {
+	b, ok := t.Underlying().(*types.Basic)
+	return ok && b.Info()&types.IsUnsigned != 0
 }
